@@ -790,6 +790,14 @@ class EReference(EStructuralFeature):
         self._eopposite = value
         if value:
             value._eopposite = self
+        # this property shadows the reflective 'eOpposite' feature (which does
+        # not exist yet while Ecore itself is being defined): record that it
+        # is set, or it is never written to an .ecore file
+        feature = EReference.__dict__.get('eOpposite_')
+        if feature is not None:
+            self._isset[feature] = None
+            if value:
+                value._isset[feature] = None
 
     @property
     def container(self):
